@@ -1,1 +1,97 @@
-Theorem placeholder_removed_later : True. Proof. exact I. Qed. Print Assumptions placeholder_removed_later.
+(* C13 - Filter exemptions track outstanding exchanges exactly.
+   "A remote address is exempt from the inbound packet filter only while this node is waiting for
+   something from it - an unanswered request or an unanswered WHOAREYOU - and the number of
+   exemptions for an address equals the number of such outstanding items.  Whenever every request
+   has completed or failed and every challenge was answered or expired, no exemption remains, no
+   matter how the remote side behaved."
+
+   Statements about Model/Handler.v (validated against the real handler by the correspondence run);
+   every theorem is closed by a lemma of Proofs/HandlerInv.v and followed by Print Assumptions.
+   [fixed_cfg c]: the four repairs (D1, D2a, D2b, D6) are switched on; only D6 matters for C13
+   ([C13_expected_exact_needs_only_d6]).  The events, the times and the oracle draws of a run are
+   arbitrary: "no matter how the remote side behaved". *)
+From Coq Require Import List Arith NArith Bool.
+From Discv5V Require Import Model.Handler Proofs.HandlerInv.
+Import ListNotations.
+
+(* [cnt_active a h]: number of request calls stored in the active requests under node addresses
+   with socket address a; [cnt_chall a h]: number of challenges (sent WHOAREYOUs not yet answered
+   or expired) for node addresses with socket address a; [exp_get a (expected h)]: the number of
+   exemptions of a. *)
+
+(* the invariant holds initially and is preserved by every step: every event, time and draws *)
+Theorem C13_invariant_initially : ExpInv init_state.
+Proof. exact init_ExpInv. Qed.
+Print Assumptions C13_invariant_initially.
+
+Theorem C13_invariant_preserved :
+  forall c h e now d, fixed_cfg c -> ExpInv h -> ExpInv (fst (step c h e now d)).
+Proof. exact step_inv. Qed.
+Print Assumptions C13_invariant_preserved.
+
+(* expected_exact: in every reachable state the number of exemptions of every address equals the
+   number of outstanding items *)
+Theorem C13_expected_exact :
+  forall c evs, fixed_cfg c ->
+  let h := fst (run c init_state evs) in
+  forall a, exp_get a (expected h) = cnt_active a h + cnt_chall a h.
+Proof. intros c evs F h a. apply (expected_exact c evs F). Qed.
+Print Assumptions C13_expected_exact.
+
+Theorem C13_expected_exact_needs_only_d6 :
+  forall c evs, fix_d6 c = true ->
+  let h := fst (run c init_state evs) in
+  forall a, exp_get a (expected h) = cnt_active a h + cnt_chall a h.
+Proof. intros c evs F h a. apply (run_inv_d6 c evs init_state F init_ExpInv). Qed.
+Print Assumptions C13_expected_exact_needs_only_d6.
+
+(* the well-formedness half of the invariant, spelled out: node addresses occur once in the active
+   requests, no empty list is stored, every request is stored under the node address of its
+   contact; addresses occur once in the exemption map and every stored count is positive *)
+Theorem C13_reachable_well_formed :
+  forall c evs, fixed_cfg c ->
+  let h := fst (run c init_state evs) in
+  NoDup (map fst (active h)) /\
+  Forall (fun x => snd x <> [] /\ Forall (fun r => c_naddr (rc_contact r) = fst x) (snd x)) (active h) /\
+  NoDup (map fst (expected h)) /\ Forall (fun x => 0 < snd x) (expected h).
+Proof.
+  intros c evs F h. destruct (expected_exact c evs F) as (((H1 & H2) & (H3 & H4)) & _).
+  repeat split; assumption.
+Qed.
+Print Assumptions C13_reachable_well_formed.
+
+(* an address is exempt (it is a key of the map, which is what the filter tests) exactly while
+   something is outstanding for it *)
+Theorem C13_exempt_only_while_waiting :
+  forall c evs a, fixed_cfg c ->
+  let h := fst (run c init_state evs) in
+  In a (map fst (expected h)) <-> 0 < cnt_active a h + cnt_chall a h.
+Proof. intros c evs a F h. apply exempt_iff_waiting. apply expected_exact. exact F. Qed.
+Print Assumptions C13_exempt_only_while_waiting.
+
+(* all_done_no_exemption *)
+Theorem C13_all_done_no_exemption :
+  forall c evs, fixed_cfg c ->
+  let h := fst (run c init_state evs) in
+  active h = [] -> challenges h = [] -> expected h = [].
+Proof. intros c evs F h. apply all_done_no_exemption. apply expected_exact. exact F. Qed.
+Print Assumptions C13_all_done_no_exemption.
+
+(* The pinned behaviour (exemptions not returned on the error paths, DESIGN.md section 7 D6)
+   violated the property: a request, the peer's WHOAREYOU, and a second WHOAREYOU for the handshake
+   packet leave an exemption behind although nothing is outstanding.  Record of the finding. *)
+Theorem C13_pinned_exemption_leak_refuted :
+  exists c evs, fix_d6 c = false /\
+    let h := fst (run c init_state evs) in active h = [] /\ challenges h = [] /\ expected h <> [].
+Proof. exact pinned_exemption_leak_refuted. Qed.
+Print Assumptions C13_pinned_exemption_leak_refuted.
+
+(* The hypotheses are satisfiable by non-trivial states: a configuration with all repairs, and a
+   run after which a session is established, two requests are active and a challenge is pending. *)
+Example C13_hypotheses_satisfiable :
+  fixed_cfg (ex_cfg true) /\
+  let h := fst (run (ex_cfg true) init_state ex_busy_events) in
+  ExpInv h /\ length (sessions h) = 1 /\ cnt_active 20%N h = 2 /\ cnt_chall 30%N h = 1 /\
+  expected h = [(20%N, 2); (30%N, 1)].
+Proof. split; [exact ex_cfg_fixed|exact busy_state]. Qed.
+Print Assumptions C13_hypotheses_satisfiable.
